@@ -11,6 +11,7 @@ def Sys.live (s : Sys D) (x : Nat) : Prop := s.isCrashed x = false
 inductive Step (c : Cfg) (s : Sys D) (now : Nat) : Sys D → Prop
   | idle : Step c s now { s with now := now }
   | crash (x : Nat) : Step c s now { s with now := now, crashed := lset false s.crashed x true }
+  | net (cuts : List (List (Nat × Nat))) : Step c s now { s with now := now, cuts := cuts }
   | drop (m : Msg) (hm : m ∈ s.soup) (hc : s.isCrashed m.dst = true) :
       Step c s now { s with now := now, soup := s.soup.erase m }
   | tick (a : Nat) (shuf : List Nat) (ha : s.isCrashed a = false) :
@@ -60,6 +61,8 @@ theorem step_rel (c : Cfg) (s : Sys D) (act : Act) : Step c s act.time (step c s
           · rename_i hk; exact Step.ind a x shuf t (by simpa using ha) hp hk hf'
           · rename_i hk; exact Step.susp a x t (by simpa using ha) hp hk hf'
   | crash x now => exact Step.crash x
+  | cut h ga gb now => exact Step.net _
+  | heal h now => exact Step.net _
 
 /-! ### evidence that an armed timer will be cancelled in time -/
 
@@ -79,6 +82,8 @@ theorem Evid.mono {δ : Nat} {soup soup' : List Msg} {a x F : Nat}
   exact ⟨m, hs m hm, hc⟩
 
 structure Inv (c : Cfg) (δ : Nat) (s : Sys D) : Prop where
+  /-- no partition is active: the network routes everything it is handed -/
+  whole : s.whole = true
   pendMem : ∀ a x t, (s.node a).pendOf x = some t → isMember c.n a x = true
   clean : ∀ a x, s.live x → Clean x (s.node a)
   soupClean : ∀ m ∈ s.soup, ∀ x, s.live x → ¬ hasDead x m.upds
@@ -100,8 +105,34 @@ theorem mem_stamp (a now : Nat) (k : Nat) (os : List Out) (m : Msg) (h : m ∈ s
     · obtain ⟨h1, h2, o', ho', h3⟩ := ih _ h
       exact ⟨h1, h2, o', by simp [ho'], h3⟩
 
-theorem soup_commit (s : Sys D) (a now : Nat) (r : Node D × List Out) (soup : List Msg) :
-    (s.commit a now r soup).soup = soup ++ stamp a now s.nextId r.2 := rfl
+theorem pairIn_nil (a b : Nat) : pairIn [] a b = false := rfl
+
+theorem blocked_of_whole (s : Sys D) (h : s.whole = true) (a b : Nat) : s.blocked a b = false := by
+  unfold Sys.blocked
+  unfold Sys.whole at h
+  rw [List.all_eq_true] at h
+  rw [List.any_eq_false]
+  intro ps hps
+  have := h ps hps
+  have hnil : ps = [] := by simpa using this
+  subst hnil
+  simp [pairIn_nil]
+
+theorem routed_of_whole (s : Sys D) (h : s.whole = true) (ms : List Msg) : s.routed ms = ms := by
+  unfold Sys.routed
+  rw [List.filter_eq_self]
+  intro m _
+  simp [blocked_of_whole s h]
+
+/-- with no active partition every sent message enters the soup -/
+theorem soup_commit (s : Sys D) (a now : Nat) (r : Node D × List Out) (soup : List Msg)
+    (h : s.whole = true) :
+    (s.commit a now r soup).soup = soup ++ stamp a now s.nextId r.2 := by
+  show soup ++ s.routed (stamp a now s.nextId r.2) = _
+  rw [routed_of_whole s h]
+
+theorem whole_commit (s : Sys D) (a now : Nat) (r : Node D × List Out) (soup : List Msg) :
+    (s.commit a now r soup).whole = s.whole := rfl
 
 theorem crashed_commit (s : Sys D) (a now : Nat) (r : Node D × List Out) (soup : List Msg) :
     (s.commit a now r soup).isCrashed = s.isCrashed := rfl
